@@ -642,6 +642,11 @@ func (tic *TermInCommittee) HandleViewChange(vcm *interfaces.ViewChangeMessage) 
 	}
 
 	header := vcm.Content().SignedHeader()
+	hasProof := header.PreparedProof() != nil && len(header.PreparedProof().Raw()) > 0
+	if hasProof != (vcm.Block() != nil) {
+		tic.logger.Info("LHMSG RECEIVED VIEW_CHANGE IGNORE - a prepared proof and its block must come together (proof=%t block=%t)", hasProof, vcm.Block() != nil)
+		return
+	}
 	if vcm.Block() != nil && header.PreparedProof() != nil {
 		isValidDigest := tic.blockUtils.ValidateBlockCommitment(vcm.BlockHeight(), vcm.Block(), header.PreparedProof().PreprepareBlockRef().BlockHash())
 		if !isValidDigest {
